@@ -71,16 +71,21 @@ def intToF32 (i : Int) : UInt32 := (roundNE32 (i < 0) i.natAbs 1).getD (inf32 (i
 
 /-- `str::parse::<iN>()` / `::<uN>()`: an optional `+` (or `-` for signed types), at least one
     digit, nothing else, and the value in range -/
-def rustParseInt (w : IntTy) (s : Bytes) : Option Int :=
-  let neg := w.signed && s.head? == some 0x2d
-  let ds := match s with
-    | c :: r => if c == 0x2b || (c == 0x2d && w.signed) then r else s
-    | [] => []
+def rangeChecked (w : IntTy) (v : Int) : Option Int := if w.inRange v then some v else none
+
+/-- the sign step of `from_str_radix`: `[b'+', rest @ ..] => (true, rest)`,
+    `[b'-', rest @ ..] if is_signed_ty => (false, rest)`, `_ => (true, src)`; returns (negative, digits) -/
+def signSplit (w : IntTy) (s : Bytes) : Bool × Bytes :=
+  match s with
+  | c :: r => if c == 0x2b then (false, r) else if c == 0x2d && w.signed then (true, r) else (false, s)
+  | [] => (false, [])
+
+def parseDigits (w : IntTy) (neg : Bool) (ds : Bytes) : Option Int :=
   if ds.isEmpty || !ds.all isDigit then none
-  else
-    let n : Int := Model.Num.natOfDigits ds
-    let v := if neg then -n else n
-    if w.inRange v then some v else none
+  else rangeChecked w (if neg then -(Model.Num.natOfDigits ds : Int) else Model.Num.natOfDigits ds)
+
+def rustParseInt (w : IntTy) (s : Bytes) : Option Int :=
+  parseDigits w (signSplit w s).1 (signSplit w s).2
 
 /-- exponent of a literal: the digits after `e`/`E` with optional sign -/
 def litExp : Bytes → Int
@@ -460,6 +465,22 @@ def keyDe (k : KeyKind) (key : Bytes) : R :=
     match nameIndex names key with
     | some i => .ok (.variant i .unit)
     | none => fail                                         -- unknown_variant
+
+/-! ## representation invariant of `Number`: a `Float` is finite (`Number::from_f64` refuses the rest) -/
+
+mutual
+def finiteFloats : JV → Bool
+  | .num (.float b) => Spec.Ieee.F64.isFinite b
+  | .arr xs => finiteFloatsList xs
+  | .obj kvs => finiteFloatsMembers kvs
+  | _ => true
+def finiteFloatsList : List JV → Bool
+  | [] => true
+  | x :: xs => finiteFloats x && finiteFloatsList xs
+def finiteFloatsMembers : List (Bytes × JV) → Bool
+  | [] => true
+  | (_, v) :: r => finiteFloats v && finiteFloatsMembers r
+end
 
 /-! ## OWNED: `impl<'de> serde::Deserializer<'de> for Value` -/
 
